@@ -52,7 +52,12 @@ Definition rows_uniform (r1 r2 : list N) : bool :=
 Definition rx_uniform (inp : pinput) : bool :=
   forallb (fun r1 => forallb (rows_uniform r1) (pi_rx inp)) (pi_rx inp).
 
-Definition glr_tok_checks (c : pconf) (inp : pinput) : bool :=
-  pc_consume c && (match pc_layout c with None => true | Some _ => false end) &&
+(* for any consume_input *)
+Definition glr_tok_checks0 (c : pconf) (inp : pinput) : bool :=
+  (match pc_layout c with None => true | Some _ => false end) &&
   stop_row_zero inp (pc_stop c) && no_stop_shift (pc_tb c) (pc_stop c) &&
   accept_only_stop (pc_tb c) (pc_stop c) && rx_uniform inp.
+
+(* with consume_input on *)
+Definition glr_tok_checks (c : pconf) (inp : pinput) : bool :=
+  pc_consume c && glr_tok_checks0 c inp.
